@@ -281,7 +281,7 @@ func GenQueries(g *Gen, n int) []Query {
 			q.DO = r.Chance(1, 3)
 		case 2:
 			q.Edns, q.Size = true, 1232
-			q.Opts = []dns.EDNS0{Ecs([]string{"10.0.0.0", "10.1.2.0", "172.16.5.0", "8.8.8.0"}[r.Intn(4)], 24, r.Intn(3)*8)}
+			q.Opts = []dns.EDNS0{Ecs([]string{"10.0.0.0", "10.1.2.0", "172.16.5.0", "8.8.8.0", "192.0.2.0", "198.51.100.0", "203.0.113.0"}[r.Intn(7)], 24, r.Intn(3)*8)}
 		}
 		wire, err := PackQuery(q)
 		if err != nil {
